@@ -38,11 +38,14 @@ pub fn generate(run_seed: u64, index: u64, _tier: Tier) -> Case {
     let memory = *rng.pick(&["1GiB", "64MiB", "16KiB", "512B"]);
     let port = 12000 + (index % 20000);
     let ttl_probe = index % 6 == 5;
+    // the listen backlog is a configuration knob like the others: it must not change behaviour
+    let backlog = *rng.pick(&["1024", "1024", "16", "4096"]);
     Case {
         kind: "startup".into(),
         data: json!({
             "args": ["memcrsd", "--port", port.to_string(), "--connection-limit", limit.to_string(), "--threads", th.to_string(),
-                     "--runtime-type", runtime, "--eviction-policy", policy, "--item-size-limit", item, "--memory-limit", memory],
+                     "--runtime-type", runtime, "--eviction-policy", policy, "--item-size-limit", item, "--memory-limit", memory,
+                     "--backlog-limit", backlog],
             "port": port, "threads": th, "runtime": runtime, "limit": limit, "item": item, "policy": policy, "memory": memory, "ttl_probe": ttl_probe,
         }),
     }
